@@ -10,6 +10,20 @@ NOTE = ("Trusted: Lean 4.33 kernel; axioms propext / Classical.choice / Quot.sou
         "standards. CPython's re/str/int semantics are modelled, not verified.")
 
 CLAIMS = {
+    "C17": dict(
+        text="Kernel-checked obligations (decide +kernel, no axioms beyond the standard three) on the country table "
+             "and on ALL bank entries regenerated from the live tree on every run: structure strings parse and "
+             "describe exactly bban_length, iban_length = bban_length + 4 <= 34, positions non-empty / in bounds / "
+             "pairwise disjoint, bank-identifying fields published, national algorithms' fields and check-digit "
+             "fields published; every bank entry (29,451 on the pinned tree, in chunks over 16 modules): country in "
+             "the table, BIC null/empty or ISO 9362-valid with a pycountry country code, bank code empty or fitting "
+             "the bank-identifying field in length and character classes; plus generic lemmas giving these checks "
+             "their meaning (incl. RegistryBicsOk of C12). PARTIAL: 'every listed bank can occur in a valid IBAN "
+             "and is found again' is checked dynamically for every distinct key (thorough) / a sample (quick), not "
+             "proved generically.",
+        design="7 (C17)",
+        technique="decide +kernel instance obligations over the complete regenerated tables (bit-mask encoded "
+                  "sets, chunked) + Lean lemmas interpreting them + exhaustive dynamic audit/reachability"),
     "C12": dict(
         text="Lean 4 theorems for EVERY registry (any list of bank entries) and BIC context: an unlisted (country, "
              "bank code) pair raises InvalidBankCode from both lookups; for a listed pair the candidates are exactly "
